@@ -116,10 +116,23 @@ def run(chk):
     # per-message latch in data_received
     dr = repo.func(PROTO, "ResponseHandler.data_received")
     lat = [s for s, _b in K.stmts(dr, "self._should_close = True")]
-    if lat and PC.has_lit(PC.pc(lat[0]), "message.should_close", True) is not None:
+    if any(PC.has_lit(PC.pc(l), "message.should_close", True) is not None for l in lat):
         chk.ok("C06.latch", lat[0], "a response that asks to close latches should_close")
     else:
         chk.violation("C06.latch", dr, "if message.should_close: self._should_close = True", "latch", "a response with Connection: close does not prevent reuse")
+    # a 101 that names a new protocol ends HTTP on this connection whether or not the parser recognises the protocol as an upgrade it supports
+    if any(PC.has_lit(PC.pc(l), "message.code == 101", True) is not None for l in lat):
+        chk.ok("C06.latch", lat[-1], "a 101 Switching Protocols response latches should_close (the connection now speaks another protocol)")
+    else:
+        chk.violation("C06.latch", dr, "self._should_close = True", "(message.code == 101)",
+                      "a `101 Switching Protocols` for a protocol the parser does not treat as an upgrade (anything but websocket/tcp with `Connection: upgrade`) is delivered as an ordinary bodiless response and the connection is pooled: the next request is written into the switched connection and answered with the other protocol's bytes")
+    # bytes held inside the parser (start of another message) count as undelivered input
+    sc = repo.func(PROTO, "ResponseHandler.should_close")
+    if any(isinstance(n, ast.Attribute) and n.attr in ("has_pending_data", "_lines") and "_parser" in norm.raw(n.value) for n in ast.walk(sc.node)):
+        chk.ok("C06.predicate", sc, "should_close also looks at input buffered inside the parser (a partial message head beyond the end of the response)")
+    else:
+        chk.violation("C06.predicate", sc, "should_close", "self._parser.has_pending_data",
+                      "surplus bytes that the parser buffered as the start of another head (`...HTTP/1.1 200 OK\\r\\nX-Stale: y`) are invisible to should_close: the connection is pooled, the old parser is discarded with those bytes on reuse, and when the rest of the stale message arrives the next request fails with `Bad status line`")
 
     # ---- C06.fresh -------------------------------------------------------------------------------------------------
     srp = repo.func(PROTO, "ResponseHandler.set_response_params")
